@@ -5,6 +5,7 @@ import (
 	"fmt"
 	"math"
 	"os"
+	"sort"
 	"sync"
 	"time"
 
@@ -426,7 +427,6 @@ func (fs *fsMutable) ReadDir(
 	t0 := fs.opStart(op)
 	defer fs.opEnd(t0, op, err)
 
-	offset := int(op.Offset)
 	iNode := op.Inode
 
 	fs.lock.Lock()
@@ -438,18 +438,20 @@ func (fs *fsMutable) ReadDir(
 		return jfuse.ENOENT
 	}
 
-	if offset > len(children) {
-		return
-	}
-
-	var i uint64 = 1
-	for _, c := range children {
-		i++
-		if i < uint64(offset) {
-			continue
+	// Children are listed by increasing iNode, and the offset of an entry is its iNode: a listing
+	// resumed at the offset of the last entry returned continues with the next iNode, whatever the
+	// (random) iteration order of the map and whatever was added or removed in between.
+	iNodes := make([]fuseops.InodeID, 0, len(children))
+	for id := range children {
+		if uint64(id) > uint64(op.Offset) {
+			iNodes = append(iNodes, id)
 		}
-		child := *c
-		child.Offset = fuseops.DirOffset(i) // This is where dirOffset matters..
+	}
+	sort.Slice(iNodes, func(i, j int) bool { return iNodes[i] < iNodes[j] })
+
+	for _, id := range iNodes {
+		child := *children[id]
+		child.Offset = fuseops.DirOffset(id) // This is where dirOffset matters..
 		n := fuseutil.WriteDirent(op.Dst[op.BytesRead:], child)
 		if n == 0 {
 			break
